@@ -27,7 +27,9 @@ type c16alCase struct {
 	Scen   scenCfg `json:"scen"`
 	Side   string  `json:"side"`   // endpoint under test (receives the alert)
 	Unread int     `json:"unread"` // application datagrams delivered before the alert and not read
-	Alert  string  `json:"alert"`  // "close_notify" (the peer calls Close) | "fatal" (the peer sends a fatal alert)
+	Alert  string  `json:"alert"`  // "close_notify" (the peer calls Close) | "fatal" (the peer sends a fatal alert) |
+	//                                "close-in-handshake" (no peer action: Close is called while the handshake is still waiting for a silent peer)
+	Desc int `json:"desc"` // description of the fatal alert (0 = handshake_failure); any value is an alert the peer may send
 }
 
 type c16alResult struct {
@@ -46,7 +48,54 @@ func c16alClosedClass(err error) bool {
 		func() bool { var ae *alertError; return errors.As(err, &ae) }())
 }
 
+// runC16CloseInHandshake: Handshake is blocked on a silent peer (nothing is delivered), then Close is called - twice.
+// Both Close calls and the Handshake call return promptly, and nothing of the library is left running afterwards.
+func runC16CloseInHandshake(idx int, cs *c16alCase) c16alResult {
+	res := c16alResult{Case: idx, Name: cs.Name}
+	r := newLabRun()
+	scen := cs.Scen
+	if err := r.setup(&scen, &scenStores{}); err != nil {
+		res.Lab = err.Error()
+
+		return res
+	}
+	defer r.closeAll()
+	e := r.c
+	if cs.Side == "s" {
+		e = r.s
+	}
+	ctx, cancel := context.WithTimeout(context.Background(), 20*time.Second)
+	defer cancel()
+	e.startHandshake(ctx) // scripted network: nothing reaches the peer, nothing comes back
+	time.Sleep(60 * time.Millisecond)
+	for k := 0; k < 2; k++ {
+		done := make(chan struct{})
+		go func() { _ = e.conn.Close(); close(done) }()
+		select {
+		case <-done:
+		case <-time.After(4 * time.Second):
+			res.Violations = append(res.Violations, fmt.Sprintf("Close call %d did not return within 4 s while the handshake was waiting for a silent peer", k+1))
+
+			return res
+		}
+	}
+	res.CloseOK = true
+	select {
+	case <-e.hsDone:
+		if e.hsErr == nil {
+			res.Violations = append(res.Violations, "Handshake returned nil after Close")
+		}
+	case <-time.After(4 * time.Second):
+		res.Violations = append(res.Violations, "the pending Handshake call was not released by Close")
+	}
+
+	return res
+}
+
 func runC16Alert(idx int, cs *c16alCase) c16alResult {
+	if cs.Alert == "close-in-handshake" {
+		return runC16CloseInHandshake(idx, cs)
+	}
 	res := c16alResult{Case: idx, Name: cs.Name}
 	r := newLabRun()
 	scen := cs.Scen
@@ -81,7 +130,11 @@ func runC16Alert(idx int, cs *c16alCase) c16alResult {
 		go func() {
 			ctx, cancel := context.WithTimeout(context.Background(), 2*time.Second)
 			defer cancel()
-			_ = peer.conn.notify(ctx, alert.Fatal, alert.HandshakeFailure)
+			desc := alert.HandshakeFailure
+			if cs.Desc != 0 {
+				desc = alert.Description(cs.Desc) //nolint:gosec
+			}
+			_ = peer.conn.notify(ctx, alert.Fatal, desc)
 		}()
 	}
 	// give the endpoint time to process the alert (it is not read by the application: nobody is in Read)
